@@ -64,7 +64,12 @@ AttrType(d, kl, n, fuel) ==
                          ELSE LET t == RefTargets(d, kl, n)[1] IN AttrType(d, t.kl, t.n, fuel - 1))
     ELSE TypeName(d, a.ty, 8)
 
-InScope(x, root) == root = "" \/ x.comp = root
+\* components may be nested: d.nest is a sequence of <<component, the component it is nested in>> (absent = none);
+\* what a component contains is what it or a component nested in it (at any depth) holds
+Nest(d) == IF "nest" \in DOMAIN d THEN d.nest ELSE <<>>
+RECURSIVE Within(_, _, _, _)
+Within(d, c, root, fuel) == c = root \/ (fuel > 0 /\ \E p \in Rng(Nest(d)) : p[1] = c /\ Within(d, p[2], root, fuel - 1))
+InScope(d, x, root) == root = "" \/ (x.comp # "" /\ Within(d, x.comp, root, 8))
 
 \* attributes of a class in modeled order, with core types; derived attributes only on request
 ClassDef(d, c, derived) ==
@@ -72,8 +77,10 @@ ClassDef(d, c, derived) ==
     IN [i \in DOMAIN keep |-> <<keep[i].n, AttrType(d, c.kl, keep[i].n, 8)>>]
 
 HasDerived(d, c, names) == \E n \in Rng(names) : AttrOf(d, c.kl, n).k = "derived"
+\* (an identifier without attributes - BridgePoint keeps three slots per class - is not a modeled identifier; the numbering
+\* follows the slots)
 UniqueDefs(d, c, derived) ==
-    {<<"I" \o NatStr(k), Rng(c.ids[k])>> : k \in {j \in DOMAIN c.ids : derived \/ ~HasDerived(d, c, c.ids[j])}}
+    {<<"I" \o NatStr(k), Rng(c.ids[k])>> : k \in {j \in DOMAIN c.ids : c.ids[j] # <<>> /\ (derived \/ ~HasDerived(d, c, c.ids[j]))}}
 
 Assoc(num, src, tgt, pairs, smany, scond, tmany, tcond, sph, tph) ==
     [rel |-> "R" \o NatStr(num), src |-> src, tgt |-> tgt, pairs |-> Rng(pairs), smany |-> smany, scond |-> scond,
@@ -94,10 +101,10 @@ AssocDefs(r) ==
             {Assoc(r.num, r.subs[i], r.sup, r.keys[r.subs[i]], FALSE, TRUE, FALSE, FALSE, "", "") : i \in DOMAIN r.subs}
 
 Component(d, root, derived) ==
-    LET cs == {c \in Rng(d.classes) : InScope(c, root)}
+    LET cs == {c \in Rng(d.classes) : InScope(d, c, root)}
     IN [classes |-> {<<c.kl, ClassDef(d, c, derived)>> : c \in cs},
         uniques |-> {<<c.kl, UniqueDefs(d, c, derived)>> : c \in cs},
-        assocs |-> UNION {AssocDefs(r) : r \in {x \in Rng(d.rels) : InScope(x, root)}}]
+        assocs |-> UNION {AssocDefs(r) : r \in {x \in Rng(d.rels) : InScope(d, x, root)}}]
 
 -----------------------------------------------------------------------------
 (* XSD (C20): one element per class of the component with one attribute per      *)
@@ -123,10 +130,10 @@ XsType(ty) == CASE ty = "boolean" -> "xs:boolean" [] ty = "integer" -> "xs:integ
                 [] ty = "string" -> "xs:string" [] ty = "unique_id" -> "xs:integer"
 TypeNameOf(d, ty) == IF ty \in Core \/ IsEnum(d, ty) \/ IsUdt(d, ty) THEN ty ELSE ""
 \* data types of the model are in scope when global (outside every component) or inside the component
-TypeInScope(u, root) == u.comp = "" \/ u.comp = root
+TypeInScope(d, u, root) == u.comp = "" \/ Within(d, u.comp, root, 8)
 Xsd(d, root) ==
-    [elements |-> {<<c.kl, XsdElement(d, c)>> : c \in {x \in Rng(d.classes) : x.comp = root}},
+    [elements |-> {<<c.kl, XsdElement(d, c)>> : c \in {x \in Rng(d.classes) : x.comp # "" /\ Within(d, x.comp, root, 8)}},
      core |-> {<<ty, XsType(ty)>> : ty \in Core},
-     enums |-> {<<u.n, u.items>> : u \in {x \in Rng(d.enums) : TypeInScope(x, root)}},
-     udts |-> {<<u.n, TypeNameOf(d, u.base)>> : u \in {x \in Rng(d.udts) : TypeInScope(x, root) /\ TypeNameOf(d, x.base) # ""}}]
+     enums |-> {<<u.n, u.items>> : u \in {x \in Rng(d.enums) : TypeInScope(d, x, root)}},
+     udts |-> {<<u.n, TypeNameOf(d, u.base)>> : u \in {x \in Rng(d.udts) : TypeInScope(d, x, root) /\ TypeNameOf(d, x.base) # ""}}]
 =============================================================================
